@@ -263,6 +263,68 @@ def check_retest(ck: Checker, rid: str, s: Srv):
     return cfg, sc, guards, stores, waits
 
 
+def _notified_label(test, call):
+    """label L of `test` such that leaving the test on L implies `call` (Condition.wait) returned True, or None"""
+    if test is call:
+        return 'T'
+    if isinstance(test, ast.Await) and test.value is call:
+        return 'T'
+    if isinstance(test, ast.UnaryOp) and isinstance(test.op, ast.Not):
+        r = _notified_label(test.operand, call)
+        return {'T': 'F', 'F': 'T'}.get(r)
+    if isinstance(test, ast.BoolOp):
+        for v in test.values:
+            if any(x is call for x in ast.walk(v)):
+                r = _notified_label(v, call)
+                if isinstance(test.op, ast.Or) and r == 'F':
+                    return 'F'  # `a or not wait()` is false only if wait() was true
+                if isinstance(test.op, ast.And) and r == 'T':
+                    return 'T'  # `a and wait()` is true only if wait() was true
+                return None
+    return None
+
+
+def check_wakeup_not_wasted(ck: Checker, rid: str, s: Srv):
+    """One notify() is issued per finished request.  A waiter that was woken (wait returned true) has consumed that
+    wake-up: it either takes the slot, finds the server full again (re-evaluated capacity guard: another caller took
+    the slot, nothing is lost), or passes the wake-up on.  A woken waiter that leaves by an exception without having
+    re-evaluated the guard leaves a free slot nobody is told about: the next waiter sleeps on an idle server."""
+    cfg, sc = enqueue_cfg(ck, s)
+    guards = {n.id: _guard_kind(n.ast, sc, s) for n in cfg.nodes if n.kind == 'test' and _guard_kind(n.ast, sc, s) in ('T', 'F')}  # node -> label of the *full* branch
+    stores = {n.id for n in _store_nodes(cfg, sc, s)}
+    waits = _wait_nodes(cfg, sc, s)
+    ck.need(waits, f'{s.enqueue.key}: no wait on the admission condition')
+    notifies = {n.id for n in cfg.nodes if header_expr(n) is not None and any(method_of(c)[1] in ('notify', 'notify_all') and method_of(c)[0] is not None and sc.canon(method_of(c)[0]) == s.cond for c in calls_in(header_expr(n)))}
+    for wn, wc in waits:
+        edges = None
+        if wn.kind == 'test':
+            lab = _notified_label(wn.ast, wc)
+            if lab is not None:
+                edges = [e for e in cfg.succ[wn.id] if e.kind == lab]
+        elif wn.kind == 'stmt' and isinstance(wn.ast, ast.Assign) and len(wn.ast.targets) == 1 and isinstance(wn.ast.targets[0], ast.Name):
+            ok = wn.ast.targets[0].id
+            edges = []
+            for t in cfg.nodes:
+                if t.kind == 'test':
+                    pos = t.ast
+                    neg = False
+                    while isinstance(pos, ast.UnaryOp) and isinstance(pos.op, ast.Not):
+                        pos, neg = pos.operand, not neg
+                    if isinstance(pos, ast.Name) and pos.id == ok:
+                        edges += [e for e in cfg.succ[t.id] if e.kind == ('F' if neg else 'T')]
+            if not edges:
+                edges = None
+        else:
+            edges = list(cfg.normal_succ(wn.id))  # a wait whose time-out is an exception (asyncio.wait_for)
+        if edges is None:
+            ck.ob(rid, s.enqueue, wn.ast, True, 'the outcome of the wait is not told apart here (no obligation)')
+            continue
+        # finding the server full again ends the obligation (another caller took the slot); finding it not full does not:
+        # the slot is there and this waiter must take it (or pass the wake-up on)
+        p = path_avoiding(cfg, edges, {cfg.exit_raise}, avoid=stores | notifies, edge_ok=lambda e: not (e.src in guards and e.kind == guards[e.src]))
+        ck.ob(rid, s.enqueue, wn.ast, p is None, 'a woken waiter leaves without the slot only after it found the server full again (re-evaluated capacity guard), or passes the wake-up on' if p is None else 'a waiter that was woken can leave by an exception without having found the server full again and without passing the wake-up on: the one notify() issued for the freed slot is consumed, the slot stays free and the next waiter keeps sleeping on an idle server', path=fmt_path(cfg, [wn.id] + p) if p else '')
+
+
 def check_atomic_admission(ck: Checker, rid: str, s: Srv):
     """C06-2: guard evaluation and insert in one region of the admission lock."""
     cfg, sc = enqueue_cfg(ck, s)
